@@ -31,6 +31,12 @@ class CallMixin:
                     if isinstance(sub, (ast.Await, ast.NamedExpr, ast.Yield, ast.YieldFrom)):
                         raise Unsupported("logger call with side-effecting argument", n)
                 self.dropped.add("logger call")
+                ev = getattr(self.current, "log_events", None) if self.current is not None else None
+                if ev and n.args and isinstance(n.args[0], ast.Constant) and n.args[0].value in ev:
+                    # a log line that IS the observable behaviour (e.g. "Would submit %s"): ghost event
+                    for st2, vals in self.ev_list(n.args[1:], st1, sink):
+                        yield ev[n.args[0].value](self, st2, vals), self.lift(None)
+                    continue
                 yield st1, self.lift(None)
                 continue
             if f.ty is T.PY and self._hashable(f.z) and f.z in self.raw_rules:
